@@ -59,15 +59,20 @@ TAG_RE = re.compile(r'^\[([^\]|]*)\|\s*([^\]]+)\]\s*(.*)$', re.S)
 
 # a clause that carries well-formedness (C03) also carries the consistency of observers (C05): "exists iff the parent lists it" is a
 # statement about well-formed trees only, so every mutator's wf / type-check clause is a premise of C05
-TAG_IMPLIES = {'C03': ['C05']}
+# C09 says the overlay obeys the operation contracts of C01 relative to the union, and C10 (deletions persist, re-creation starts fresh) is
+# the remove / create half of those contracts: every overlay clause is a premise of C01 for the overlay configurations C01 quantifies over
+# C11 (transfer and recursive operations are exact) is C01's "a successful call changes exactly the entries it names" for the composite calls
+TAG_IMPLIES = {'C03': ['C05'], 'C10': ['C09', 'C01'], 'C09': ['C01'], 'C11': ['C01']}
 
 
 def expand_tags(tags):
     out = list(tags)
-    for t in tags:
-        for u in TAG_IMPLIES.get(t, []):
+    i = 0
+    while i < len(out):
+        for u in TAG_IMPLIES.get(out[i], []):
             if u not in out:
                 out.append(u)
+        i += 1
     return out
 
 
